@@ -87,6 +87,12 @@ def spec_random(seed: int, index: int, n: int, shape: str = "mixed") -> dict[str
     return {"kind": "random", "seed": seed, "index": index, "n": n, "shape": shape}
 
 
+def spec_joined(parts: list[dict[str, Any]]) -> dict[str, Any]:
+    """The logs of several runs (each written by the real writer into its own file) joined into one file the way
+    compressed logs are joined: `cat run1/log.json.zst run2/log.json.zst > both.json.zst`."""
+    return {"kind": "joined", "parts": [dict(p) for p in parts]}
+
+
 class ExcForLog(Exception):
     pass
 
@@ -334,13 +340,17 @@ class Written:
 
     _uids = 0
 
-    def __init__(self, spec: dict[str, Any], zst: Path, seen: list[dict[str, Any]]) -> None:
+    def __init__(self, spec: dict[str, Any], zst: Path, seen: list[dict[str, Any]],
+                 run_lens: list[int] | None = None) -> None:
         Written._uids += 1
         self.uid = Written._uids
         self.spec = spec
         self.zst = zst
         self.seen = seen
         self.n = len(seen)
+        # number of records of every run whose log went into this file (one run unless the logs were joined)
+        self.run_lens = list(run_lens) if run_lens is not None else [self.n]
+        self.parts: list[Written] = []     # joined log: the runs
         self.log = [{"id": i + 1, "prio": LEVELS[w["level"]][1]} for i, w in enumerate(seen)]
         self._raw: bytes | None = None
         self.mut_changed = 0
@@ -356,9 +366,12 @@ class Written:
 
     @property
     def raw(self) -> bytes:
+        if self._raw is None and self.parts:
+            self._raw = b"".join(w.raw for w in self.parts)      # reference decoding, run by run
         if self._raw is None:
             with self.zst.open("rb") as f:
-                self._raw = zstandard.ZstdDecompressor().stream_reader(f).read()
+                # every frame of the file (reference decoder; a writer is free to end frames in between)
+                self._raw = zstandard.ZstdDecompressor().stream_reader(f, read_across_frames=True).read()
         return self._raw
 
     def id_of(self, rec: Any) -> int:
@@ -396,7 +409,10 @@ _LEVEL_METHOD = {"CRITICAL": "critical", "ERROR": "error", "WARNING": "warning",
 
 def write_log(spec: dict[str, Any], directory: Path, name: str) -> Written:
     """Run the REAL writer: add_zst_log_handler -> logger calls -> remove_zst_log_handler."""
+    if spec.get("kind") == "joined":
+        return write_joined(spec, directory, name)
     recs = records_of(spec)
+    id_base = int(spec.get("id_base", 0))    # markers of this run start at id_base + 1 (runs that are joined later)
     path = directory / f"{name}.zst"
     rnd = random.Random(f"clock-{name}-{spec}")
     base = float(rnd.choice([1_600_000_000, 1_759_290_000, 1_711_846_799, 2_000_000_000, 86_400 * 365]))
@@ -459,10 +475,11 @@ def write_log(spec: dict[str, Any], directory: Path, name: str) -> Written:
                 other_handler = None
             if other_handler is not None and other_lg is not None:
                 other_lg.info(f"record of the other log {i} " + "x" * (37 * i % 500))
-            msg = f"{r['msg'][: len(r['msg']) // 2]}{MARK_L}{i + 1}{MARK_R}{r['msg'][len(r['msg']) // 2:]}"
+            mark = f"{MARK_L}{i + 1 + id_base}{MARK_R}"
+            msg = f"{r['msg'][: len(r['msg']) // 2]}{mark}{r['msg'][len(r['msg']) // 2:]}"
             if r["args"] is not None and "%" in msg:
                 # keep the marker out of the %-directives
-                msg = f"{MARK_L}{i + 1}{MARK_R}{r['msg']}"
+                msg = f"{mark}{r['msg']}"
             kw: dict[str, Any] = {}
             intended.append(None if r["tags"] is None else list(r["tags"]))
             if r["tags"] is not None:
@@ -485,7 +502,7 @@ def write_log(spec: dict[str, Any], directory: Path, name: str) -> Written:
                     mobj = _mut_make(mut)
                 else:
                     mobj = slots.setdefault(mut["slot"], _mut_make(mut))
-                msg, args = _mut_call(mut, mobj, f"{MARK_L}{i + 1}{MARK_R}", r["msg"])
+                msg, args = _mut_call(mut, mobj, mark, r["msg"])
                 before = _render_now(msg, args)
             if r["exc"] is not None:
                 try:
@@ -528,10 +545,115 @@ def write_log(spec: dict[str, Any], directory: Path, name: str) -> Written:
     return w
 
 
+def write_joined(spec: dict[str, Any], directory: Path, name: str) -> Written:
+    """Every part is one run of the REAL writer (its own file, closed by remove_zst_log_handler); the joined log is
+    the byte-wise concatenation of the runs' files.  A sequence of zstd frames is a valid .zst file (`zstd -d`,
+    `zstdcat` decode all of it); what it holds is what run 1 logged followed by what run 2 logged, and so on."""
+    parts: list[Written] = []
+    base = 0
+    for k, ps in enumerate(spec["parts"]):
+        if ps.get("kind") == "joined":
+            raise Machinery("joined logs do not nest")
+        w = write_log(dict(ps, id_base=base), directory, f"{name}.run{k + 1}")
+        parts.append(w)
+        base += w.n
+    path = directory / f"{name}.zst"
+    with path.open("wb") as out:
+        for w in parts:
+            out.write(w.zst.read_bytes())
+    errs = [w.spec["close_error"] for w in parts if "close_error" in w.spec]
+    if errs:
+        spec = dict(spec, close_error=errs[0])
+    joined = Written(spec, path, [rec for w in parts for rec in w.seen], run_lens=[w.n for w in parts])
+    joined.parts = parts
+    joined.mut_changed = sum(w.mut_changed for w in parts)
+    return joined
+
+
 # ----------------------------------------------------------------------------
 # containers
 
 CONTAINERS = ["zst", "gz", "plain", "stdin-pipe", "stdin-file"]
+# Containers made of SEVERAL zstd frames / gzip members: "<zst|gz>+<how>@<where>".  A .zst file is a sequence of
+# frames and a .gz file a sequence of members (RFC 8878 / RFC 1952); both come into being by `cat a.zst b.zst`,
+# by parallel compressors (pzstd: one frame per chunk, each preceded by a skippable frame), by writers that end a
+# frame now and then (flush(FLUSH_FRAME)), by appending to an existing log.
+#   where: runs = at the boundaries between the runs of a joined log; rec = after every record;
+#          mid  = at two byte positions in the middle of records (also inside a multi-byte character)
+#   how  : nosize = streaming frames without content size and checksum; cksum = one-shot frames with content size
+#          and checksum; flush = ONE compressor stream whose frames are ended with flush(FLUSH_FRAME);
+#          pzstd = every frame preceded by a skippable frame holding its size; members = gzip members
+MULTI_ZST = ["zst+nosize@runs", "zst+flush@mid", "zst+cksum@rec", "zst+pzstd@mid", "zst+cksum@runs", "zst+flush@rec"]
+MULTI_GZ = ["gz+members@runs", "gz+members@mid", "gz+members@rec"]
+
+
+def _pieces(w: Written, prefix: str, where: str) -> tuple[bytes, list[bytes]]:
+    """(data, pieces): the log of `w` in prefix variant `prefix` and the byte strings that become its frames /
+    members (concatenation = data, >= 1 piece).  No assumption about what the writer under test wrote."""
+    if where == "runs":
+        # a run that logged nothing leaves an empty frame
+        out = [_strip_prefix(p.raw, prefix) for p in w.parts] if w.parts else [_strip_prefix(w.raw, prefix)]
+        return b"".join(out), out
+    data = _strip_prefix(w.raw, prefix)
+    if where == "mid":
+        cuts: list[int] = []
+        for k in (1, 2):
+            pos = len(data) * k // 3
+            if 0 < pos < len(data) and data[pos - 1:pos] == b"\n":
+                pos += 1
+            if 0 < pos < len(data) and pos not in cuts:
+                cuts.append(pos)
+        out = [data[a:b] for a, b in zip([0, *cuts], [*cuts, len(data)])]
+    elif where == "rec":
+        lines = data.split(b"\n")
+        out = [ln + b"\n" for ln in lines[:-1]] + ([lines[-1]] if lines[-1] else [])
+        out = out or [b""]
+    else:
+        raise Machinery(f"unknown cut positions {where!r}")
+    if b"".join(out) != data:
+        raise Machinery("pieces do not add up to the log")
+    return data, out
+
+
+def _frames(pieces: list[bytes], base: str, how: str) -> bytes:
+    if base == "gz":
+        if how != "members":
+            raise Machinery(f"unknown gzip framing {how!r}")
+        return b"".join(gzip.compress(p, compresslevel=1 + 4 * (i % 3), mtime=i) for i, p in enumerate(pieces))
+    if how == "nosize":
+        out = b""
+        for i, p in enumerate(pieces):
+            co = zstandard.ZstdCompressor(level=1 + 9 * (i % 2), write_content_size=False,
+                                          write_checksum=False).compressobj()
+            out += co.compress(p) + co.flush()
+        return out
+    if how == "cksum":
+        return b"".join(zstandard.ZstdCompressor(level=3 + 16 * (i % 2), write_content_size=True,
+                                                 write_checksum=True).compress(p) for i, p in enumerate(pieces))
+    if how == "flush":
+        bio = io.BytesIO()
+        wr = zstandard.ZstdCompressor(write_checksum=True).stream_writer(bio, closefd=False)
+        for p in pieces:
+            wr.write(p)
+            wr.flush(zstandard.FLUSH_FRAME)
+        wr.close()
+        return bio.getvalue()
+    if how == "pzstd":
+        import struct
+
+        out = b""
+        for p in pieces:
+            fr = zstandard.ZstdCompressor(write_content_size=True).compress(p)
+            out += struct.pack("<III", 0x184D2A50, 4, len(fr)) + fr
+        return out
+    raise Machinery(f"unknown zstd framing {how!r}")
+
+
+def _reference_decode(base: str, blob: bytes) -> bytes:
+    """Decoding by the libraries' own multi-frame / multi-member readers (not gallia)."""
+    if base == "gz":
+        return gzip.decompress(blob)
+    return zstandard.ZstdDecompressor().stream_reader(io.BytesIO(blob), read_across_frames=True).read()
 PREFIXES = ["all", "none", "mixed"]
 _PREFIX_RE = re.compile(rb"^<\d+>")
 
@@ -555,9 +677,23 @@ class Container:
         self.w, self.kind, self.prefix = w, kind, prefix
         self.path: Path | None = None
         self.data: bytes | None = None
+        self.frames = len(w.run_lens) if kind == "zst" and prefix == "all" else 1
         stem = f"{w.zst.stem}-{prefix}"
         if kind == "zst" and prefix == "all":
-            self.path = w.zst  # the writer's own file, untouched
+            self.path = w.zst  # the writer's own file(s), untouched
+            return
+        if "+" in kind:
+            base, _, framing = kind.partition("+")
+            how, _, where = framing.partition("@")
+            if base not in ("zst", "gz"):
+                raise Machinery(f"unknown container {kind!r}")
+            data, pieces = _pieces(w, prefix, where)
+            blob = _frames(pieces, base, how)
+            if _reference_decode(base, blob) != data:
+                raise Machinery(f"container {kind}: the reference decoder does not read the log back")
+            self.frames = len(pieces)
+            self.path = directory / f"{stem}-{how}-{where}.{base}"
+            self.path.write_bytes(blob)
             return
         data = _strip_prefix(w.raw, prefix)
         if kind == "zst":
